@@ -307,9 +307,16 @@ func (x *Exec) Build(op Op) *Req {
 		if op.Has("range") {
 			r.Header.Set("Range", op.S("range"))
 		}
+		if op.Has("inm") {
+			r.Header.Set("If-None-Match", quoteETag(x.Conc.Body(op.Atoms("inm"))))
+		}
 		return r
 	case "HeadObject":
-		return newReq("HEAD", x.objPath(b, k))
+		r := newReq("HEAD", x.objPath(b, k))
+		if op.Has("inm") {
+			r.Header.Set("If-None-Match", quoteETag(x.Conc.Body(op.Atoms("inm"))))
+		}
+		return r
 	case "DeleteObject":
 		return newReq("DELETE", x.objPath(b, k))
 	case "DeleteMulti":
